@@ -92,8 +92,16 @@ def make_jobs(tier, seed):
                    [fin(c, rec=True, inherit=True, fail=True) for c in sample]))
     groups.append(("n3_signal", {"mode": "random", "runs_per_config": 2 if quick else 4, "policies": pol, "signals": True},
                    [fin(c, rec=True, fail=True, slow=True) for c in (rng.sample(all3, 300) if quick else all3)]))
+    # never-finishing scripts: every configuration, each build in turn being the slow one (C17: nothing else may wait for it)
+    slowcfgs = []
+    for c in all3:
+        builds = [t for t in range(1, c["n"] + 1) if c["kind"][t - 1] == "b"]
+        nonagg = [t for t in range(1, c["n"] + 1) if c["kind"][t - 1] != "a"]
+        if len(nonagg) >= 2:
+            for b in builds:
+                slowcfgs.append(dict(c, slow=[b]))
     groups.append(("n3_slow", {"mode": "random", "runs_per_config": 1 if quick else 3, "policies": pol},
-                   [fin(c, slow=True) for c in (rng.sample(all3, 300) if quick else all3)]))
+                   [fin(c) for c in (rng.sample(slowcfgs, min(len(slowcfgs), 1500)) if quick else slowcfgs)]))
     wsample = [dict(c, watch=True) for c in (rng.sample(all3, 400) if quick else all3)]
     groups.append(("n3_watch", {"mode": "random", "runs_per_config": 2 if quick else 5, "max_changes": 2,
                                 "policies": pol + ["edits_first"], "max_steps": 120},
@@ -109,6 +117,8 @@ def make_jobs(tier, seed):
     groups.append(("families_watch", {"mode": "random", "runs_per_config": 10 if quick else 100, "max_changes": 3,
                                       "policies": pol + ["edits_first"], "max_steps": 200},
                    [fin(dict(c, watch=True), inherit=True, rec=True) for c in fams]))
+    fslow = [dict(c, slow=[b]) for c in fams for b in range(1, c["n"] + 1) if c["kind"][b - 1] == "b"]
+    groups.append(("families_slow", {"mode": "random", "runs_per_config": 4 if quick else 40, "policies": pol}, [fin(c) for c in fslow]))
     groups.append(("families_dfs", {"mode": "dfs", "dfs_budget": 60 if quick else 1500},
                    [fin(c) for c in fams]))
     small = [c for c in gen_configs.all_configs(2)] + rng.sample(gen_configs.all_configs(3), 40 if quick else 400)
